@@ -1,7 +1,7 @@
 """C17 — quantities are bare numbers in memory."""
 import os
 
-from .. import common as C, battery as B
+from .. import common as C, battery as B, slots as SL
 
 
 def run(tier):
@@ -25,6 +25,7 @@ def run(tier):
     chk.layer('A.histories', behaviours=len(bs), replays=sum(e['behaviours'] for e in rp), steps=sum(e['steps'] for e in rp),
               note='SetValue / MutableValue / Value / Zero / copies in TLC-generated histories; after every step Value() and the memory image must equal the specification state')
     chk.count(evaluations=len(lay) + sum(e['steps'] for e in rp), distinct=len(lay) + len(bs))
+    SL.run(tier, chk, 'C17')
     chk.cov['rule'] = 'one layout fact per (quantity type or raw shape, numeric type): 96 x 3; histories as in C04 restricted to what the type supports'
     chk.cov['exhaustive'] = True
     chk.sample(lay[0])
